@@ -12,7 +12,9 @@ func idx(t, name string, unique bool, cols ...string) Stmt {
 	return Stmt{Kind: "createIndex", T: t, A: name, Pk: cols, Unique: unique}
 }
 
-func fk(t, name, c, rt, rc string) Stmt { return Stmt{Kind: "addFk", T: t, A: name, B: c, RT: rt, RC: rc} }
+func fk(t, name, c, rt, rc string) Stmt {
+	return Stmt{Kind: "addFk", T: t, A: name, B: c, RT: rt, RC: rc}
+}
 
 var (
 	oNotNull = Opt{Kind: "notnull"}
@@ -103,6 +105,21 @@ var pairWitnesses = []witness{
 }
 
 var pg = runCfg{dialect: "postgres"}
+
+func init() {
+	pairWitnesses = append(pairWitnesses,
+		// C01-e: postgres retypes that keep the type name and change only length / precision / scale
+		witness{"w-pg-retype-parameters", pg,
+			[]Stmt{tbl("t", col("a", "INT8"), col("p", "DECIMAL(10,2)"), col("v", "VARCHAR(64)"))},
+			[]Stmt{tbl("t", col("a", "INT8"), col("p", "DECIMAL(12,4)"), col("v", "VARCHAR(128)"))}},
+		// C07-e: a mixed-case column under a stand-alone CREATE INDEX
+		witness{"w-mixed-case-indexed-column", my,
+			[]Stmt{tbl("t", col("id", "int(11)"), col("userName", "varchar(64)"))},
+			[]Stmt{tbl("t", col("id", "int(11)"), col("userName", "varchar(64)")), idx("t", "idx_user_name", false, "userName")}})
+	scriptWitnesses = append(scriptWitnesses,
+		scriptWitness{"w-mixed-case-indexed-column", my, []Stmt{tbl("t", col("id", "int(11)"), col("userName", "varchar(64)")), idx("t", "idx_user_name", false, "userName")}})
+}
+
 var lite = runCfg{dialect: "sqlite3"}
 
 func typed(typ string, names ...string) []ColDef {
